@@ -911,3 +911,455 @@ func frameStart(p *Program, owner string) (*ssa.Function, *ssa.BasicBlock) {
 	}
 	return nil, nil
 }
+
+// ---------------------------------------------------------------------------
+// R09.12: who may write FrameDescriptor.ContentSize: the SizeOption closure
+// (the value the header will announce) and the header parser. Anything else
+// (e.g. a Reset that zeroes it while the Size flag stays set) makes the header
+// announce a size that is not the content's.
+
+func ruleContentSizeWriters(c *Check, p *Program, rule string) {
+	n := 0
+	for _, fn := range moduleFuncs(p, pkgRoot, pkgStream) {
+		allInstrs(fn, func(in ssa.Instruction) {
+			st, ok := in.(*ssa.Store)
+			if !ok || lastField(st.Addr) != "FrameDescriptor.ContentSize" {
+				return
+			}
+			n++
+			c.Sites++
+			okW := false
+			for _, ctx := range anchorContexts(fn, 2) {
+				name := shortFn(ctx)
+				if ctx.Parent() != nil && strings.HasSuffix(ctx.Parent().Name(), "Option") {
+					okW = true
+				}
+				if name == "FrameDescriptor.initR" {
+					okW = true
+				}
+			}
+			c.Cond(okW, rule, "ContentSize#written-in:"+shortFn(fn), p.InstrPos(in), "the content size of the descriptor is set by SizeOption or read from the header, nowhere else", "option closure / header parser", shortFn(fn)+" overwrites the content size: with the Size flag still set the header announces a size that is not the content's")
+		})
+	}
+	if n < 2 {
+		c.Fail(rule, "ContentSize#writers", "", "the writers of the content size are resolved", fmt.Sprintf("only %d store(s) found (confirmed by reading: SizeOption and initR)", n))
+	}
+}
+
+// ---------------------------------------------------------------------------
+// Nested re-arm (R17.11 / R09.13 / R18.9): when Reset or init re-initialises a struct-valued field through one of
+// that struct's own methods (zrd.out.clear()), the method must write every field that the struct's other methods
+// write, on every path; and a slice field that the other methods grow with append must be left with length zero
+// (nil, [:0], make(_, 0)): bytes appended for the previous stream must not be replayed into the next one.
+
+func ruleNestedRearm(c *Check, p *Program, rule string) {
+	n := 0
+	for _, sp := range rearmSpecs {
+		initFn, _ := frameStart(p, sp.owner)
+		resetFn := p.Func("", sp.owner+".Reset")
+		seenM := map[*ssa.Function]bool{}
+		for _, top := range []*ssa.Function{initFn, resetFn} {
+			// a dedicated init method or Reset; when init has been merged into a data-path method the
+			// calls found there are the data path's own, not re-initialisations
+			if top == nil || (top != resetFn && top.Name() != "init") {
+				continue
+			}
+			for _, g := range deepFuncs(top, 2) {
+				for _, ci := range callsIn(g) {
+					m := staticCallee(ci)
+					if m == nil || !inModule(m) || len(m.Blocks) == 0 || m.Signature.Recv() == nil || seenM[m] {
+						continue
+					}
+					args := ci.Common().Args
+					if len(args) == 0 {
+						continue
+					}
+					fa, isFA := args[0].(*ssa.FieldAddr)
+					if !isFA || ownerField(fa, sp.owner) == "" {
+						continue
+					}
+					tn := recvTypeName(m)
+					pt, isP := fa.Type().Underlying().(*types.Pointer)
+					if !isP {
+						continue
+					}
+					if _, isSt := pt.Elem().Underlying().(*types.Struct); !isSt || tn == "" {
+						continue
+					}
+					seenM[m] = true
+					n++
+					nestedRearmOne(c, p, rule, sp.owner, ownerField(fa, sp.owner), tn, m)
+				}
+			}
+		}
+	}
+	c.Cond(n >= 1, rule, "nested-rearm-sites", "", "struct-valued fields re-initialised through their own methods were found", fmt.Sprintf("%d such methods", n), "no struct-valued field is re-initialised through a method of its type in init/Reset (expected CompressingReader.out)")
+}
+
+func nestedRearmOne(c *Check, p *Program, rule, owner, field, tn string, m *ssa.Function) {
+	c.Funcs[fname(m)] = true
+	mut := map[string]bool{}
+	grown := map[string]bool{}
+	for _, fn := range p.SrcFuncs() {
+		if recvTypeName(fn) != tn || fn == m || fn.Pkg != m.Pkg {
+			continue
+		}
+		// set-up methods (all their call sites are in plain functions: the constructors) configure the value; they are not the data path
+		if sites := callSitesOf(fn); len(sites) > 0 {
+			setup := true
+			for _, s := range sites {
+				if par := s.Parent(); par == nil || par.Signature.Recv() != nil || par.Parent() != nil {
+					setup = false
+				}
+			}
+			if setup {
+				continue
+			}
+		}
+		for f := range fieldsTouched(fn, tn) {
+			mut[f] = true
+		}
+		allInstrs(fn, func(in ssa.Instruction) {
+			st, ok := in.(*ssa.Store)
+			if !ok {
+				return
+			}
+			f := ownerField(st.Addr, tn)
+			if f == "" {
+				return
+			}
+			if call, isC := st.Val.(*ssa.Call); isC {
+				if bi, isB := call.Call.Value.(*ssa.Builtin); isB && bi.Name() == "append" {
+					grown[f] = true
+				}
+			}
+		})
+	}
+	recv := m.Params[0]
+	wholeStore := func(in ssa.Instruction) (*ssa.Store, bool) {
+		st, ok := in.(*ssa.Store)
+		if ok && st.Addr == ssa.Value(recv) {
+			return st, true
+		}
+		return nil, false
+	}
+	var fl []string
+	for f := range mut {
+		fl = append(fl, f)
+	}
+	sort.Strings(fl)
+	for _, f := range fl {
+		f := f
+		touches := func(in ssa.Instruction) bool {
+			if st, ok := in.(*ssa.Store); ok && ownerField(st.Addr, tn) == f {
+				if _, isLit := rootAlloc(st.Addr); !isLit {
+					return true
+				}
+			}
+			_, w := wholeStore(in)
+			return w
+		}
+		ok, bad := mustOnAllPaths(p, m, touches, false, 2)
+		c.Cond(ok, rule, fname(m)+"#rearms:"+f, p.Pos(m.Pos()), f+" is written by the other methods of "+tn+" and re-initialised by "+m.Name()+" (called for "+field+" at the start of a stream) on every path", "written on every path", f+" keeps its value from the previous stream: "+m.Name()+" returns at "+bad+" without writing it")
+		if !grown[f] {
+			continue
+		}
+		// the value left in a grown slice has length zero
+		short := strings.TrimPrefix(f, tn+".")
+		zeroLen := func(v ssa.Value) bool {
+			switch x := v.(type) {
+			case *ssa.Const:
+				return x.IsNil()
+			case *ssa.Slice:
+				if x.High != nil {
+					k, isK := constUint(x.High)
+					return isK && k == 0
+				}
+			case *ssa.MakeSlice:
+				k, isK := constUint(x.Len)
+				return isK && k == 0
+			}
+			return false
+		}
+		bad = ""
+		nSt := 0
+		allInstrs(m, func(in ssa.Instruction) {
+			if st, ok := in.(*ssa.Store); ok && ownerField(st.Addr, tn) == f {
+				if _, isLit := rootAlloc(st.Addr); isLit {
+					return // a field of a composite literal, judged at the whole-struct store
+				}
+				nSt++
+				if !zeroLen(st.Val) {
+					bad = p.InstrPos(st)
+				}
+				return
+			}
+			if st, w := wholeStore(in); w {
+				nSt++
+				ld, isLd := st.Val.(*ssa.UnOp)
+				if !isLd {
+					if _, isK := st.Val.(*ssa.Const); !isK {
+						bad = p.InstrPos(st)
+					}
+					return
+				}
+				al, isAl := ld.X.(*ssa.Alloc)
+				if !isAl {
+					bad = p.InstrPos(st)
+					return
+				}
+				for _, r := range *al.Referrers() {
+					if fa, isFA := r.(*ssa.FieldAddr); isFA && fieldName(fa.X.Type(), fa.Field) == short {
+						for _, rr := range *fa.Referrers() {
+							if s2, isS := rr.(*ssa.Store); isS && s2.Addr == ssa.Value(fa) && !zeroLen(s2.Val) {
+								bad = p.InstrPos(s2)
+							}
+						}
+					}
+				}
+			}
+		})
+		c.Cond(nSt > 0 && bad == "", rule, fname(m)+"#empties:"+f, p.Pos(m.Pos()), f+" is grown with append by the data path; "+m.Name()+" leaves it with length zero so that bytes of the previous stream are not replayed", fmt.Sprintf("%d stores, each of nil, [:0] or make(_, 0)", nSt), "the value left in "+f+" at "+bad+" is not of length zero: bytes appended for the previous stream remain and are emitted into the next one")
+	}
+}
+
+// rootAlloc: the local Alloc an address chain starts at, if any.
+func rootAlloc(v ssa.Value) (*ssa.Alloc, bool) {
+	for {
+		switch x := v.(type) {
+		case *ssa.FieldAddr:
+			v = x.X
+		case *ssa.IndexAddr:
+			v = x.X
+		case *ssa.Alloc:
+			return x, true
+		default:
+			return nil, false
+		}
+	}
+}
+
+// ---------------------------------------------------------------------------
+// R02.12: the size guard of the block reader rejects only what cannot fit. The exits of FrameDataBlock.Read that
+// report ErrOptionInvalidBlockSize lie behind a comparison of the block size with the capacity of the block buffer;
+// that comparison must be strict (size > cap): a block of exactly the maximum size is what the Writer emits for
+// every full incompressible block (stored raw), so a non-strict comparison refuses the Writer's own output.
+
+func ruleSizeGuardExact(c *Check, p *Program, rule string) {
+	fn := findFn(c, p, rule, "internal/lz4stream", "FrameDataBlock.Read")
+	if fn == nil {
+		return
+	}
+	msg, _ := errSentinel(p, "ErrOptionInvalidBlockSize")
+	isCap := func(v ssa.Value) bool {
+		call, isC := v.(*ssa.Call)
+		if !isC {
+			return false
+		}
+		bi, isBi := call.Call.Value.(*ssa.Builtin)
+		return isBi && (bi.Name() == "cap" || bi.Name() == "len")
+	}
+	n, recognised := 0, 0
+	for _, g := range deepFuncs(fn, 1) {
+		allInstrs(g, func(in ssa.Instruction) {
+			r, ok := in.(*ssa.Return)
+			if !ok {
+				return
+			}
+			hit := false
+			for _, res := range r.Results {
+				if !isErrorType(res.Type()) {
+					continue
+				}
+				for _, s := range sentinelsIn(res) {
+					if s == msg {
+						hit = true
+					}
+				}
+			}
+			if !hit {
+				return
+			}
+			n++
+			for _, a := range atomsOfBlockLocal(in.Block()) {
+				bo, isB := a.V.(*ssa.BinOp)
+				if a.Kind != "cmp" || !isB || !(isCap(bo.X) || isCap(bo.Y)) {
+					continue
+				}
+				recognised++
+				// the atom is strict when its negation is a >= / <= statement with the capacity as the big side
+				neg := a
+				neg.Val = !a.Val
+				big, small := atomSaysGeq(neg)
+				strict := big != nil && isCap(big) && !isCap(small)
+				c.Cond(strict, rule, "FrameDataBlock.Read#oversize-exit-is-strict", p.InstrPos(in), "a block is refused as too large only when its size exceeds the capacity of the block buffer (a block of exactly the maximum size - a full block stored raw - is accepted)", "the exit is taken on size > cap(buffer)", "the ErrOptionInvalidBlockSize exit is also taken when the size equals the capacity ("+a.String()+"): full incompressible blocks written by the Writer are refused")
+			}
+		})
+	}
+	c.Cond(n >= 1, rule, "FrameDataBlock.Read#oversize-exit", p.Pos(fn.Pos()), "the block reader has an exit for oversized blocks", fmt.Sprintf("%d exits report ErrOptionInvalidBlockSize, %d guarded by a capacity comparison", n, recognised), "no exit of FrameDataBlock.Read reports ErrOptionInvalidBlockSize")
+}
+
+// ---------------------------------------------------------------------------
+// R09.14 / R18.10: no empty data block is emitted. A block whose size word has zero in its low 31 bits is the end
+// mark for every decoder that follows the specification, so the bytes after it (the real end mark, the content
+// checksum) are misread. Every source slice that reaches FrameDataBlock.Compress is therefore either a whole block
+// buffer, or a prefix [:h] whose length h is known to be positive at the call: a guard h > 0 (any spelling), or h is
+// the count of an io.ReadFull whose error is known to be nil (a full read).
+
+func ruleNoEmptyBlock(c *Check, p *Program, rule string, owner string) {
+	comp := findFn(c, p, rule, "internal/lz4stream", "FrameDataBlock.Compress")
+	if comp == nil {
+		return
+	}
+	same := func(a, b ssa.Value) bool {
+		if a == b {
+			return true
+		}
+		la, lb := loadField(a), loadField(b)
+		return la != "" && la == lb
+	}
+	readCount := func(h ssa.Value) *ssa.Call {
+		if ex, ok := h.(*ssa.Extract); ok && ex.Index == 0 {
+			if call, isC := ex.Tuple.(*ssa.Call); isC && (calleeIs(call, "io", "ReadFull") || calleeIs(call, "io", "ReadAtLeast")) {
+				return call
+			}
+		}
+		return nil
+	}
+	errOfCall := func(v ssa.Value, call *ssa.Call) bool {
+		if ex, ok := v.(*ssa.Extract); ok && ex.Index == 1 && ex.Tuple == ssa.Value(call) {
+			return true
+		}
+		// a named result captured by a deferred closure lives in a cell: the load reads what was stored from the call
+		if ld, ok := v.(*ssa.UnOp); ok && ld.Op == token.MUL {
+			if refs := ld.X.Referrers(); refs != nil {
+				for _, r := range *refs {
+					if st, isS := r.(*ssa.Store); isS && st.Addr == ld.X && st.Block() == call.Block() {
+						if ex, isE := st.Val.(*ssa.Extract); isE && ex.Index == 1 && ex.Tuple == ssa.Value(call) {
+							return true
+						}
+					}
+				}
+			}
+		}
+		return false
+	}
+	n := 0
+	type key struct {
+		v  ssa.Value
+		at ssa.Instruction
+	}
+	seen := map[key]bool{}
+	var check func(v ssa.Value, at ssa.Instruction, atoms []Atom, depth int)
+	check = func(v ssa.Value, at ssa.Instruction, atoms []Atom, depth int) {
+		if seen[key{v, at}] || depth > 4 {
+			return
+		}
+		seen[key{v, at}] = true
+		switch x := v.(type) {
+		case *ssa.Parameter:
+			g := x.Parent()
+			idx := -1
+			for i, pr := range g.Params {
+				if pr == x {
+					idx = i
+				}
+			}
+			if idx < 0 {
+				return
+			}
+			if g.Parent() != nil {
+				// a function literal: called or started where it is made
+				allInstrs(g.Parent(), func(in ssa.Instruction) {
+					ci, ok := in.(ssa.CallInstruction)
+					if !ok {
+						return
+					}
+					if mc, isMC := ci.Common().Value.(*ssa.MakeClosure); (isMC && mc.Fn == ssa.Value(g)) || ci.Common().Value == ssa.Value(g) {
+						if idx < len(ci.Common().Args) {
+							check(ci.Common().Args[idx], ci, append(append([]Atom{}, atoms...), atomsOfBlock(ci.Block())...), depth+1)
+						}
+					}
+				})
+				return
+			}
+			for _, cs := range callSitesOf(g) {
+				if idx < len(cs.Common().Args) {
+					check(cs.Common().Args[idx], cs, append(append([]Atom{}, atoms...), atomsOfBlock(cs.Block())...), depth+1)
+				}
+			}
+		case *ssa.Slice:
+			if x.High == nil {
+				return // whole buffer (from Low, which the data path never uses for sources)
+			}
+			h := x.High
+			if call, isC := h.(*ssa.Call); isC {
+				if bi, isB := call.Call.Value.(*ssa.Builtin); isB && (bi.Name() == "len" || bi.Name() == "cap") {
+					return // the whole of another buffer
+				}
+			}
+			// the length is a parameter of a helper: judge it at each call of the helper
+			if hp, isP := h.(*ssa.Parameter); isP && hp.Parent().Parent() == nil {
+				g := hp.Parent()
+				idx := -1
+				for i, pr := range g.Params {
+					if pr == hp {
+						idx = i
+					}
+				}
+				css := callSitesOf(g)
+				if idx >= 0 && len(css) > 0 && depth <= 4 {
+					for _, cs := range css {
+						if idx < len(cs.Common().Args) {
+							fake := &ssa.Slice{X: x.X, High: cs.Common().Args[idx]}
+							check(fake, cs, append(append([]Atom{}, atoms...), atomsOfBlock(cs.Block())...), depth+1)
+						}
+					}
+					return
+				}
+			}
+			n++
+			c.Sites++
+			ok, how := false, ""
+			for _, a := range atoms {
+				neg := a
+				neg.Val = !a.Val
+				if z := atomSaysZero(neg); z != nil && same(z, h) {
+					ok, how = true, "guard "+a.String()
+				}
+				if a.Kind == "errnil" && a.Val {
+					if call := readCount(h); call != nil && errOfCall(a.V, call) {
+						ok, how = true, "count of a full io.ReadFull (error known to be nil)"
+					}
+				}
+			}
+			par := ""
+			if at.Parent() != nil {
+				par = fname(at.Parent())
+			}
+			c.Cond(ok, rule, par+"#source-not-empty:"+shortVal(h), p.InstrPos(at), "a prefix [:h] of a buffer is handed to the block compressor only when h is known to be positive (an empty block is written as a size word that decoders take for the end mark)", how, "the length "+shortVal(h)+" of the source slice may be zero here: an empty block (size word 0x80000000) is emitted before the end mark, which specification-conforming decoders read as the end of the frame")
+		}
+	}
+	var sites []ssa.CallInstruction
+	for _, cs := range callSitesOf(comp) {
+		top := cs.Parent()
+		for top != nil && top.Parent() != nil {
+			top = top.Parent()
+		}
+		if owner == "" || recvTypeName(top) == owner {
+			sites = append(sites, cs)
+		}
+	}
+	want := 3
+	if owner != "" {
+		want = 2
+	}
+	for _, cs := range sites {
+		args := cs.Common().Args
+		if len(args) < 3 {
+			continue
+		}
+		check(args[2], cs, atomsOfBlock(cs.Block()), 0)
+	}
+	c.Cond(len(sites) >= 1 && n >= want, rule, "Compress#source-slices", p.Pos(comp.Pos()), "the sources handed to the block compressor were resolved", fmt.Sprintf("%d call sites, %d prefix slices examined", len(sites), n), fmt.Sprintf("only %d call sites of FrameDataBlock.Compress and %d prefix slices found (expected at least %d of each)", len(sites), n, want))
+}
